@@ -1820,6 +1820,10 @@ impl Fs {
 
         // Try renaming a directory
         if self.dir_exists(from) {
+            // A directory cannot be moved into its own subtree (EINVAL)
+            if to != from && to.starts_with(from) {
+                return Err("Invalid argument");
+            }
             // Can't rename dir onto file or symlink
             if self.file_exists(to) || self.symlink_exists(to) {
                 return Err("Not a directory");
